@@ -1,14 +1,14 @@
 CONSTANTS
-  NArb = 3
+  NArb = 2
   Thr = {t1}
-  PreCreated = 3
-  Kinds = {"spawn", "spawn_fn"}
-  TaskStop = FALSE
+  PreCreated = 0
+  Kinds = {"spawn"}
+  TaskStop = TRUE
   AtomicCalls = TRUE
   EagerJoin = TRUE
   MaxCmds = 4
-  MaxSys = 1
-  Codes = {0}
+  MaxSys = 2
+  Codes = {0, 7}
   AllowBusy = TRUE
   FifoLocalQueue = TRUE
   StopEndsLoop = TRUE
@@ -26,5 +26,5 @@ CONSTANTS
 SPECIFICATION Spec
 VIEW View
 SYMMETRY ThrSym
-INVARIANTS TypeOK C10_StartOrderRespectsSendOrder C10_AtMostOnce C10_OnOwnThread C10_NothingAfterStop C10_SpawnFalseWhenGone C10_JoinAfterLoopEnd C10_BlockOnOutput
+INVARIANTS TypeOK C09_FirstCodeWins C09_AllRegisteredStop C09_RunErrOnNonZero C09_EarlyStoppedDeregistered C09_RegistryExact
 CHECK_DEADLOCK FALSE
